@@ -101,7 +101,8 @@ TIME_DEPENDENT = ('tdtebd', 'tdexpmpo', 'tdtdvp2')
 
 
 FAMILY_SLOTS = ['dmrg2', 'dmrg2', 'dmrg1', 'tebd', 'tebd', 'qrtebd', 'tdvp2', 'tdvp1', 'expmpo', 'idmrg', 'idmrg', 'tdcorr',
-                'tdcorr_bk', 'spectral', 'vumps', 'tdtebd', 'tdexpmpo', 'tdtdvp2']
+                'tdcorr_bk', 'spectral', 'vumps', 'tdtebd', 'tdexpmpo', 'tdtdvp2', 'eng_seg', 'eng_fin']
+# eng_*: resume through the algorithm-level API (checks/c18_engine.py)
 # infinite DMRG twice: cheap runs, and the richest resume data (environments)
 
 
@@ -111,6 +112,9 @@ def gen_config(seed, tier='quick', family=None, index=None):
     # stratified over the engine families: configuration number i takes slot i (mod length) of the list, so that
     # every family gets its share in every batch; all other options are drawn at random from the seed
     fam = family or (FAMILY_SLOTS[index % len(FAMILY_SLOTS)] if index is not None else fam_random)
+    if fam.startswith('eng_'):
+        from checks import c18_engine
+        return c18_engine.gen_cfg(seed, fam, tier)
     L = wl.choice([4, 6]) if tier == 'quick' else wl.choice([4, 6, 6, 8])
     model = wl.choice(['TFIChain', 'XXZChain'])
     conserve = wl.choice([None, 'best'])
@@ -349,6 +353,10 @@ def psi_fingerprint(psi):
 
 def content_digest(data):
     """Digest of the semantically relevant part of a loaded results dict (None if it is not one)."""
+    if isinstance(data, dict) and 'script_checkpoint' in data and 'psi' in data and 'resume_data' in data:
+        # checkpoint of the algorithm-level script (checks/c18_engine.py)
+        return hashlib.sha1(repr(('script', int(data['script_checkpoint']), sorted(data['resume_data']),
+                                  psi_fingerprint(data['psi']))).encode()).hexdigest()
     if not isinstance(data, dict) or 'simulation_parameters' not in data or 'finished_run' not in data:
         return None
     h = hashlib.sha1()
@@ -528,7 +536,13 @@ class World:
             math_mod.scipy = arpack
             try:
                 kwargs = {'setup_logging': False}
-                if start[0] == 'fresh':
+                if start[0] == 'engine_fresh':
+                    from checks import c18_engine
+                    out['results'] = c18_engine.script_fresh(self, start[1], start[2] if len(start) > 2 else None)
+                elif start[0] == 'engine_resume':
+                    from checks import c18_engine
+                    out['results'] = c18_engine.script_resume(self, start[1], start[2])
+                elif start[0] == 'fresh':
                     out['results'] = tenpy.run_simulation(simulation_class_kwargs=kwargs, **_deepcopy(start[1]))
                 elif len(start) > 2 and start[2] == 'from_saved_checkpoint':
                     # the class-method route: SimClass.from_saved_checkpoint(filename) + `with sim: sim.resume_run()`
